@@ -18,8 +18,8 @@ from ..ctx import stable_hash
 
 ID = "C14"
 LEVEL = "fault_enumeration"
-TIERS = {"quick": {"shards": 16, "budget_s": 120, "streams": 2, "max_blocks": 12, "schedules_per_point": 3, "line_runs": 6, "sigint": 4, "systematic_pipelines": 1, "systematic_deviations": 1, "fault_runs": 8},
-         "thorough": {"shards": 16, "budget_s": 900, "streams": 14, "max_blocks": 40, "schedules_per_point": 12, "line_runs": 300, "sigint": 64, "systematic_pipelines": 4, "systematic_deviations": 2, "fault_runs": 400}}
+TIERS = {"quick": {"shards": 16, "budget_s": 120, "streams": 2, "max_blocks": 12, "schedules_per_point": 3, "line_runs": 6, "sigint": 4, "systematic_pipelines": 1, "systematic_deviations": 1, "fault_runs": 8, "lagging_saver_runs": 4},
+         "thorough": {"shards": 16, "budget_s": 900, "streams": 14, "max_blocks": 40, "schedules_per_point": 12, "line_runs": 300, "sigint": 64, "systematic_pipelines": 4, "systematic_deviations": 2, "fault_runs": 400, "lagging_saver_runs": 200}}
 RULE = ("Fault enumeration of the stop point: for each generated stream of n blocks the scheduled main thread calls stop_all() "
         "after k source reads have started, for EVERY k in 0..n+2 (before the first read, between any two reads, after the "
         "last, after the stream ended), each at several scheduler steps inside that interval, and the interleaving of all "
@@ -192,6 +192,7 @@ def enumerate_stops(ctx, conf, tmpdir):
         for k in range(0, n + 3):
             for j in range(conf["schedules_per_point"]):
                 case = dict(base)
+                case["logger"] = bool((k + j) % 3 == 0)  # as --debug / --debug-file do
                 case["stop"] = {"after_reads": k, "extra_steps": rng.choice((0, 0, 1, 2, 3, 5, 8))}
                 case["strategy"] = P.S.NAMES[(k + j) % len(P.S.NAMES)]
                 case["sched_seed"] = rng.getrandbits(32)
@@ -375,6 +376,31 @@ def run_shard(ctx):
             check_sigint(ctx, sigint_child(ctx, rng, tmpdir, i), i)
         systematic(ctx, conf, tmpdir)
         enumerate_stops(ctx, conf, tmpdir)
+        # the stop arrives while the stream saver is far behind the reader (its thread is starved)
+        rng = ctx.rng("lagging-saver")
+        from ..sched import strategies as SS
+
+        for i in range(conf["lagging_saver_runs"]):
+            case = P.random_pipeline_case(rng, max_windows=60, want_saver=True, want_stop=True)
+            base_v = list(case["v"]) or [1, 1, 0]
+            case["v"] = (base_v * (60 // len(base_v) + 1))[: rng.randint(30, 60)]
+            case["partial"] = 0
+            case["observers"] = ["rec"]
+            case["observer_timeouts"] = [0.2]
+            case["stop"] = {"after_reads": rng.randint(20, len(case["v"])), "extra_steps": rng.choice((0, 2))}
+            case["strategy"] = "starve(saver)"
+            built = AC.build_audio(case)
+            if built is None:
+                continue
+            P.clean_dir(tmpdir)
+            res = P.run_pipeline(case, built[0], tmpdir, strategy=SS.Starve(rng.getrandbits(32), timeout_budget=rng.choice((0, 5)), victim=1))
+            ctx.count("lagging_saver_runs")
+            ctx.maxi("saver_backlog_at_some_point", res.sched.max_queue_depth)
+            ctx.case(stable_hash(["lag", case["stop"], res.sched.decisions]), True)
+            ctx.count("scheduled_runs")
+            check_run(ctx, case, built[0], res, tmpdir)
+            if ctx.out_of_time():
+                break
         rng = ctx.rng("faults")
         for i in range(conf["fault_runs"]):
             # a source that raises in the middle of the stream, then the stop: every thread must still end
@@ -425,7 +451,7 @@ def inconclusive(merged, tier):
     c = merged["counters"]
     need = ["scheduled_runs", "stop_points_enumerated", "streams_with_every_stop_point_covered", "stops_before_stream_end",
             "stops_with_a_read_in_flight", "observer_logs_checked", "saved_streams_checked", "joiner_files_checked",
-            "line_mode_runs", "sigint_children_checked", "timeouts_fired", "systematic_schedules", "systematic_pipelines_fully_enumerated", "stops_after_an_injected_source_fault"]
+            "line_mode_runs", "sigint_children_checked", "timeouts_fired", "systematic_schedules", "systematic_pipelines_fully_enumerated", "stops_after_an_injected_source_fault", "lagging_saver_runs"]
     out = [f"monitor never observed {k}" for k in need if c.get(k, 0) == 0]
     if c.get("inconclusive_runs", 0) > max(3, c.get("scheduled_runs", 0) // 50):
         out.append(f"{c['inconclusive_runs']} runs hit a step/wall cap or the sigint driver's watchdog")
